@@ -37,7 +37,53 @@ def C18(ctx):
                         "callers do not write through pointers the library hands out to its constant tables (describeH3Error)"]
 
 
-PROPS = {"C18": C18}
+C17_ENTRY = ["compactCells", "gridDisk", "gridDiskDistances", "areNeighborCells", "polygonToCells",
+             "polygonToCellsExperimental", "maxPolygonToCellsSizeExperimental"]
+
+
+def C17(ctx):
+    from . import rules_alloc, rules_own
+    ctx.explanation = ("R-ALLOC: path-sensitive allocation typestate (unchecked/null/live/freed/escaped per allocation site, pointer phis as "
+                       "parallel copies) over every function that allocates: no exit with a live block, no double free, no use after free, "
+                       "NULL tested before use, and a NULL result makes the function return E_MEMORY_ALLOC - for every path, i.e. for every "
+                       "failure index of every input at once. R-ERRPROP: every call whose callee may return E_MEMORY_ALLOC (least fixpoint over "
+                       "returns, parameters and iterator error fields) is explored with the result assumed 13: every reachable return yields 13 "
+                       "or records it in an iterator. R-OWN E1-E6: protocol of the iterator-owned bounding boxes. Allocator indirection: in the "
+                       "H3_ALLOC_PREFIX configuration no unprefixed malloc/calloc/realloc/free call remains.")
+    cfgs = ["release", "prefix"] + (["assert"] if ctx.tier == "thorough" else [])
+    for cfg in cfgs:
+        m = module(cfg, "ssa")
+        for e in C17_ENTRY:
+            m.fn(e)
+        cg = rules_alloc.call_graph(m)
+        strict = rules_alloc.reachable(cg, C17_ENTRY)
+        nsites, nfun = rules_alloc.check_alloc(ctx, m, cfg, strict)
+        ctx.floor("R-ALLOC", "allocation sites (%s)" % cfg, nsites, 12)
+        ncalls, MA = rules_alloc.check_errprop(ctx, m, cfg)
+        ctx.floor("R-ERRPROP", "call sites of functions that may return E_MEMORY_ALLOC (%s)" % cfg, ncalls, 3)
+        missing = [e for e in C17_ENTRY if e not in MA]
+        if missing:
+            ctx.violation("R-ERRPROP", "never-reports:%s" % ",".join(missing),
+                          "%s allocate(s) (transitively) but no return can yield E_MEMORY_ALLOC" % ", ".join(missing), m.fn(missing[0]).where(), {"config": cfg})
+        else:
+            ctx.ok("R-ERRPROP", {"entry_points_can_report_E_MEMORY_ALLOC": C17_ENTRY, "config": cfg}, "each is in the may-return-13 fixpoint")
+        rules_own.check_owner(ctx, m, cfg)
+        ctx.note("functions_analysed_" + cfg, len(m.defined()))
+        if cfg == "prefix":
+            raw = [i for f in m.defined() for i in f.all_insts() if i.op == "call" and i.callee in ("malloc", "calloc", "realloc", "free")]
+            pre = [i for f in m.defined() for i in f.all_insts() if i.op == "call" and i.callee in ("vp_malloc", "vp_calloc", "vp_realloc", "vp_free")]
+            for i in raw:
+                ctx.violation("R-ALLOCPREFIX", "raw:%s:%s" % (i.src_fn, i.callee),
+                              "%s calls %s directly; with H3_ALLOC_PREFIX set the user's allocator is bypassed" % (i.src_fn, i.callee), i.where(), {})
+            ctx.floor("R-ALLOCPREFIX", "prefixed allocator calls", len(pre), 60)
+            if not raw:
+                ctx.ok("R-ALLOCPREFIX", {"prefixed_calls": len(pre), "unprefixed": 0}, "all allocator references go through H3_MEMORY()")
+    ctx.assumptions += ["the user's allocator behaves like malloc/calloc/free ('results identical with the default allocator' is not decided)",
+                        "iterStepPolygon's 'outer cell == 0 implies inner iterator exhausted' is taken from its shape; that _iterInitParent never yields 0 for a non-null cell of resolution <= target is a value fact not proven",
+                        "linkedGeo.c / vertexGraph.c assert() on allocation failure: outside the C17 function list, only leak/double-free typestate applies there"]
+
+
+PROPS = {"C17": C17, "C18": C18}
 
 
 def main(argv):
@@ -46,15 +92,18 @@ def main(argv):
     pid = argv[0]
     tier = os.environ.get("VERIF_TIER", "quick")
     replay = None
+    noev = False
     k = 1
     while k < len(argv):
         if argv[k] == "--tier": tier = argv[k + 1]; k += 2
         elif argv[k] == "--replay": replay = argv[k + 1]; k += 2
+        elif argv[k] == "--no-evidence": noev = True; k += 1
         else: k += 1
     if tier not in ("quick", "thorough"):
         tier = "quick"
     seed = int(os.environ.get("VERIF_SEED", "0") or 0)
     ctx = core.Ctx(pid, tier, seed)
+    ctx.no_evidence = noev
     if pid not in PROPS:
         print("no check for", pid); return 2
     if replay:
